@@ -88,7 +88,10 @@ def check_exploration(case, lenpos: list[int], offwords: list[tuple[int, int]], 
     every offset word.  Returns [(key, text)] disagreements."""
     dps = case.halmos_dyn_params if dyn_params is None else dyn_params
     positions = list(lenpos) + [p for p, _ in offwords]
-    paths = run_reader(case.cd, dps, positions)
+    try:
+        paths = run_reader(case.cd, dps, positions)
+    except Exception as e:  # noqa: BLE001 - halmos itself raised while reading well-formed calldata: nothing was explored
+        return [("explore-exception", f"SEVM.run raised {type(e).__name__}: {e} while the reader program loaded the length words")]
     want = set(itertools.product(*[sorted(set(d.cands)) for d in case.dyn]))
     got = []
     bad = []
